@@ -180,6 +180,16 @@ _bv_methods()
 _MISSING = object()
 
 
+def raised_by_harness(e):
+    """True for an AttributeError whose raising frame is a harness module (pvx/harness/*.py)"""
+    if not isinstance(e, AttributeError):
+        return False
+    tb = e.__traceback__
+    while tb is not None and tb.tb_next is not None:
+        tb = tb.tb_next
+    return tb is not None and "/pvx/harness/" in tb.tb_frame.f_code.co_filename.replace("\\", "/")
+
+
 def run_concrete(fn, inputs, uf=None, cfg=None):
     """run harness `fn` on concrete inputs against the real classes; returns a result dict"""
     ctx = ConcreteCtx(inputs, uf, cfg)
@@ -189,7 +199,12 @@ def run_concrete(fn, inputs, uf=None, cfg=None):
         pass
     except Exception as e:  # same labelling as the engine
         ctx.exception = repr(e)[:300]
-        ctx.failed.append(f"no-unexpected-exception:{type(e).__name__}")
+        if raised_by_harness(e):
+            # an AttributeError raised by a harness line itself (not inside the library): the tree no longer has a private
+            # member the harness injects state into (renamed slot).  A harness / tree mismatch, never a finding.
+            ctx.missing.append("harness-attribute:" + repr(e)[:80])
+        else:
+            ctx.failed.append(f"no-unexpected-exception:{type(e).__name__}")
     finally:
         ctx.unpatch_all()
     return {"failed": ctx.failed, "passed": ctx.passed, "missing": ctx.missing, "exception": ctx.exception,
